@@ -52,6 +52,9 @@ pub struct WorldSpec {
     /// adaptive-fee pool with these constants (must satisfy the published validity rules, else the pool is static)
     #[serde(default)]
     pub adaptive: Option<crate::world2::AfConstants>,
+    /// adaptive pools only: the pool is created through a permissioned tier with trading enabled this many seconds after creation
+    #[serde(default)]
+    pub trade_enable_delay: Option<u32>,
 }
 
 #[derive(Clone, Debug, Serialize, Deserialize, Hash, PartialEq, Eq)]
@@ -207,9 +210,13 @@ impl Hist {
             Some(k) => {
                 let auth = w.new_signer();
                 let index = 1024u16.wrapping_add(spec.tick_spacing % 1000);
-                let ix = w.ix_init_adaptive_fee_tier(cfg, index, spec.tick_spacing, Pubkey::default(), Pubkey::default(), spec.fee_rate.min(60000), k);
+                let (pool_auth, enable) = match spec.trade_enable_delay {
+                    Some(d) => (auth, Some(w.bank.clock.unix_timestamp as u64 + d as u64)),
+                    None => (Pubkey::default(), None),
+                };
+                let ix = w.ix_init_adaptive_fee_tier(cfg, index, spec.tick_spacing, pool_auth, Pubkey::default(), spec.fee_rate.min(60000), k);
                 if w.exec(&ix).ok() {
-                    w.init_pool_adaptive(cfg, &m1, &m2, index, spec.tick_spacing, auth, start_sqrt_price(spec), None).ok()?
+                    w.init_pool_adaptive(cfg, &m1, &m2, index, spec.tick_spacing, auth, start_sqrt_price(spec), enable).ok()?
                 } else {
                     w.init_pool(cfg, &m1, &m2, spec.tick_spacing, start_sqrt_price(spec)).ok()?
                 }
@@ -300,9 +307,13 @@ impl Hist {
             Some(k) => {
                 let auth = self.w.new_signer();
                 let index = 2048u16.wrapping_add(ts % 1000);
-                let ix = self.w.ix_init_adaptive_fee_tier(cfg, index, ts, Pubkey::default(), Pubkey::default(), spec2.fee_rate.min(60000), k);
+                let (pool_auth, enable) = match spec2.trade_enable_delay {
+                    Some(d) => (auth, Some(self.w.bank.clock.unix_timestamp as u64 + d as u64)),
+                    None => (Pubkey::default(), None),
+                };
+                let ix = self.w.ix_init_adaptive_fee_tier(cfg, index, ts, pool_auth, Pubkey::default(), spec2.fee_rate.min(60000), k);
                 if self.w.exec(&ix).ok() {
-                    self.w.init_pool_adaptive(cfg, &shared, &newm, index, ts, auth, start_sqrt_price(spec2), None).ok()?
+                    self.w.init_pool_adaptive(cfg, &shared, &newm, index, ts, auth, start_sqrt_price(spec2), enable).ok()?
                 } else {
                     self.w.init_pool(cfg, &shared, &newm, ts, start_sqrt_price(spec2)).ok()?
                 }
@@ -769,6 +780,7 @@ pub fn spec_strategy(with_rewards: bool, wrap_bias: bool) -> BoxedStrategy<World
             tf2: None,
             precreate_arrays: 0,
             adaptive: None,
+            trade_enable_delay: None,
         })
         .boxed()
 }
